@@ -41,6 +41,24 @@ pub mod verif_env {
         }
     }
 
+    /// E11: function-local `static X: AtomicUsize = AtomicUsize::new(0)` caches of the repository (page size, red zone, bean
+    /// factory address). Their initial bytes are 8 zero bytes - exactly those of RawVec's ZERO_CAP constant - and Kani 0.68
+    /// resolves that constant to such a static: once the cache is filled, every `Vec::new()` of the program reports the cached
+    /// value as its capacity. Same atomic, one more (non-zero) field.
+    #[derive(Debug)]
+    pub struct TaggedAtomicUsize(std::sync::atomic::AtomicUsize, u64);
+    impl TaggedAtomicUsize {
+        pub const fn new(v: usize) -> Self {
+            TaggedAtomicUsize(std::sync::atomic::AtomicUsize::new(v), 0x7a66_ed00_a5a5_0001)
+        }
+    }
+    impl std::ops::Deref for TaggedAtomicUsize {
+        type Target = std::sync::atomic::AtomicUsize;
+        fn deref(&self) -> &Self::Target {
+            &self.0
+        }
+    }
+
     /// E2: `std::thread::current()` (only used for names in messages and default names).
     #[derive(Debug, Copy, Clone)]
     pub struct VThread;
